@@ -56,26 +56,25 @@ pub fn tuple_spec(row: usize, x: u32) -> (u32, u32, u32, u32, u32, u32) {
 }
 
 /// index sequence of Enc[K', C, (d,a,b,d1,a1,b1)] (5.3.5.3): at most 30 + 3 indices.
-/// `fuel` bounds the "while b1 >= P" loops (they terminate because P1 is prime and P1 - P is small).
+/// Written in the same 32-bit width as the code on purpose (two different widths of symbolic-divisor modulo make the
+/// SAT problem intractable); no sum here can exceed 2 * 65536, and Kani checks the code's own arithmetic for overflow.
 pub fn enc_indices_spec(t: (u32, u32, u32, u32, u32, u32), w: u32, p: u32, p1: u32) -> ([u64; 33], usize) {
-    let (d, a, b, d1, a1, b1) = t;
-    let (w, p, p1) = (w as u64, p as u64, p1 as u64);
-    let (a, mut b, a1, mut b1) = (a as u64, b as u64, a1 as u64, b1 as u64);
+    let (d, a, mut b, d1, a1, mut b1) = t;
     let mut out = [0u64; 33];
     let mut n = 0usize;
-    out[n] = b;
+    out[n] = b as u64;
     n += 1;
     let mut j = 1;
     while j < d {
         b = (b + a) % w;
-        out[n] = b;
+        out[n] = b as u64;
         n += 1;
         j += 1;
     }
     while b1 >= p {
         b1 = (b1 + a1) % p1;
     }
-    out[n] = w + b1;
+    out[n] = w as u64 + b1 as u64;
     n += 1;
     let mut j = 1;
     while j < d1 {
@@ -83,7 +82,7 @@ pub fn enc_indices_spec(t: (u32, u32, u32, u32, u32, u32), w: u32, p: u32, p1: u
         while b1 >= p {
             b1 = (b1 + a1) % p1;
         }
-        out[n] = w + b1;
+        out[n] = w as u64 + b1 as u64;
         n += 1;
         j += 1;
     }
